@@ -222,6 +222,12 @@ func (s *Protocol) InvokeTimeout(pkg []byte) []byte {
 	reqPackage := requestf.RequestPacket{}
 	is := codec.NewReader(pkg[4:])
 	reqPackage.ReadFrom(is)
+	if reqPackage.CPacketType == basef.TARSONEWAY {
+		// a one-way request is never answered, not even when its handler times out
+		return nil
+	}
+	rspPackage.IVersion = reqPackage.IVersion
+	rspPackage.CPacketType = reqPackage.CPacketType
 	rspPackage.IRequestId = reqPackage.IRequestId
 	rspPackage.IRet = 1
 	rspPackage.SResultDesc = "server invoke timeout"
